@@ -164,6 +164,21 @@ def fam_starve(rng):
     return lines
 
 
+def fam_refcount(rng):
+    """C13 (mutex half): the reference-count pattern.  Every fiber owns one reference to an object that
+    contains the mutex; it may use the mutex a few times, then does lock; last = (--refs == 0); unlock;
+    if last: the memory holding the mutex is reclaimed at once (any later access is a violation)."""
+    nf = rng.choice([2, 3, 3])
+    lines = ["sem %s" % rng.choice(["counting", "binary"]), "objs mu=1 var=1", "var x0 %d mu0" % nf]
+    for _ in range(nf):
+        ops = []
+        for _ in range(rng.choice([0, 1, 2])):
+            ops += rng.choice([["lock mu0", "rd x0", "unlock mu0"], ["rlock mu0", "rd x0", "runlock mu0"], ["lock mu0", "yield", "unlock mu0"]])
+        ops += ["yield"] * rng.randrange(0, 2) + ["unref mu0 x0"]
+        lines.append("fiber " + " ; ".join(ops))
+    return lines
+
+
 def fam_mixed(rng):
     return rng.choice([fam_core, fam_cv, fam_cv_raw, fam_muwait, fam_waitn_cv, fam_cv_rsignal])(rng)
 
@@ -227,7 +242,7 @@ def fam_ctr(rng):
     return lines
 
 
-FAMILIES = {"starve": fam_starve, "cv_rsignal": fam_cv_rsignal, "ctr": fam_ctr, "once": fam_once, "futex": fam_futex,"core": fam_core, "cv": fam_cv, "cv_raw": fam_cv_raw, "muwait": fam_muwait, "debug": fam_debug,
+FAMILIES = {"refcount": fam_refcount, "starve": fam_starve, "cv_rsignal": fam_cv_rsignal, "ctr": fam_ctr, "once": fam_once, "futex": fam_futex,"core": fam_core, "cv": fam_cv, "cv_raw": fam_cv_raw, "muwait": fam_muwait, "debug": fam_debug,
             "waitn_cv": fam_waitn_cv, "mixed": fam_mixed}
 
 
